@@ -3,6 +3,16 @@
 import json, os
 V = "/verif/seeded"
 WHAT = {
+ "C02-f": "discriminant takes 4 abs(z)^2 from the caller's stale abs_sq_psi (gamma^4 * abs_sq_psi): wrong inside the screening loop, where update passes the step-n value with the previous iterate's psi",
+ "C03-f": "link entries to refresh pre-masked from fixed_sites alone (fix_psi flag lost): with unpinned terminals the rows of terminal sites are never refreshed",
+ "C05-f": "DynamicsData.from_hdf5 memoised per (file name, frame range): a second run written to the same path gets the first run's records and times",
+ "C07-f": "Device.translate(inplace=True) shifts the Mesh object in place instead of rebuilding it: every copy sharing the Mesh (Device.copy, Solution.device) is moved too",
+ "C12-f": "seeded runs warm-start tentative_dt from the seed's last step (clipped with the raw dt_max): with adaptivity off every step uses the seed's step",
+ "C13-f": "dense screening kernel cached per Mesh object and xi: a second solver on the same mesh with another penetration depth iterates with the first one's weights",
+ "C14-f": "CompositeParameter memoises its pickled operands: an operand changed in place after a first save is written in its old state",
+ "C18-f": "vectorised probe-point transform: np.asarray + in-place shift writes into the original device's probe_points in Device.rotate",
+ "C19-f": "Solution keeps a reference to the caller's Device instead of a snapshot: a seed computed before the device was changed in place is accepted (identity short-cut of __eq__)",
+ "C20-f": "np.full_like(x, z) broadcast of the evaluation height borrows the integer dtype of x: the height is truncated for integer-typed coordinates",
  "C17-e": "`if d_psi_sq:` instead of `is not None`: an exactly zero window average (the stationary state) never updates the tentative step",
  "C08-e": "Device.copy() no longer forwards length_units: every clone (also the one a Solution stores) is a 'um' device",
  "C11-e": "the |psi|^2 returned by the kernel is cached on the solver and re-used as the next step's input (state that a saved frame does not hold)",
